@@ -555,6 +555,29 @@ class WcsSampler(object):
         lat_min = refine_lat(np.argmin)
         lat_max = refine_lat(np.argmax)
 
+        # If the image contains one of the celestial poles, that pole is the
+        # true latitude extremum, which sampling at pixel resolution can only
+        # approach to within a fraction of a pixel. That matters when the
+        # output pixelization oversamples the image a lot.
+
+        for pole_lat in (90.0, -90.0):
+            try:
+                pole_pix = self._wcs.wcs_world2pix([[0.0, pole_lat]], 1)[0]
+                pole_back = self._wcs.wcs_pix2world([pole_pix], 1)[0]
+            except Exception:
+                continue
+
+            if (
+                np.all(np.isfinite(pole_pix))
+                and abs(pole_back[1] - pole_lat) < 1e-6
+                and 0.5 <= pole_pix[0] <= naxis1 + 0.5
+                and 0.5 <= pole_pix[1] <= naxis2 + 0.5
+            ):
+                if pole_lat > 0:
+                    lat_max = HALFPI
+                else:
+                    lat_min = -HALFPI
+
         # Longitudes are annoying since we need to make sure they're unwrapped.
         # On the other hand, I can't think of a non-pathological way in which an
         # image's maximum longitude would occur anywhere other than its edge.
